@@ -23,6 +23,7 @@ from __future__ import annotations
 import ast
 from typing import Dict, List, Optional, Set, Tuple
 
+from asl.absint import UNKNOWN as UNKNOWN_
 from asl.cfg import Node, cfg_of
 from asl.flow import reaching
 from asl.loader import AnalysisError, Unit, norm, own_nodes
@@ -82,6 +83,7 @@ def run(ctx) -> None:
     r03_2(ctx)
     r03_3(ctx)
     r03_4(ctx)
+    r03_5(ctx)
     ctx.floor("awaitified_calls", 8)
     ctx.floor("awaitify_sites", 10)
     ctx.floor("iterable_params", 25)
@@ -96,9 +98,11 @@ def bindings(ctx, target: Unit, pname: str) -> Optional[List[Val]]:
     is_method = target.cls is not None and target.parent is None and not target.is_static()
     for u in real_units(ctx):
         cfg = cfg_of(u)
+        seen_calls = set()
         for n in cfg.nodes:
-            if n.kind != "call" or n.tag:
-                continue
+            if n.kind != "call" or id(n.ast) in seen_calls:
+                continue  # (a finally body exists once per continuation: one copy is enough)
+            seen_calls.add(id(n.ast))
             call = n.ast
             fv = ctx.vals.expr(u, call.func, n)  # type: ignore[union-attr]
             hit = False
@@ -526,3 +530,174 @@ def r03_4(ctx) -> None:
                   else f"public `{name}` can return a plain value instead of an awaitable, async iterator or async "
                        f"context manager (kind {kind})")
     ctx.tables["return kinds"] = table
+
+
+# --------------------------------------------------------------------------- R03.5
+class _NoAcloseOps:
+    """The element is an async iterator WITHOUT ``aclose`` (a bare class-based iterator)."""
+
+    def call(self, name, args, kwargs, e, env):
+        if name == "isinstance" and len(e.args) == 2:
+            kinds = e.args[1].elts if isinstance(e.args[1], ast.Tuple) else [e.args[1]]
+            names = [norm(k).split(".")[-1] for k in kinds]
+            if any(k in ("AsyncIterator", "AsyncIterable") for k in names):
+                return True
+            if all(k in ("ACloseable", "AsyncGenerator", "AClose") for k in names):
+                return False
+        if name == "hasattr" and len(e.args) == 2 and isinstance(e.args[1], ast.Constant):
+            return e.args[1].value in ("__anext__", "__aiter__")
+        return UNKNOWN_
+
+
+def r03_5(ctx) -> None:
+    """A class-based async iterator need not have ``aclose``: the attribute is only looked up on
+    a user's object where it is known to exist (or its absence is handled)."""
+    from asl.flow import find_path, pretty_path
+    from .common import abstract_values
+    ctx.rule("R03.5", "`.aclose` is looked up on a user's iterator only under a guard that it exists (isinstance ACloseable / "
+                      "hasattr / AttributeError handler / filtered collection / declared type)")
+    for u in real_units(ctx):
+        cfg = cfg_of(u)
+        for n in cfg.nodes:
+            if n.kind != "attr" or n.tag or n.ast.attr != "aclose":
+                continue
+            from .common import uncast
+            recv = uncast(n.ast.value)
+            v = ctx.vals.expr(u, recv, n)
+            if not any(a[0] in ("user", "iter", "item") for a in v):
+                continue
+            # a parameter of an internal helper stands for what its call sites pass
+            through = set()
+            for a in v:
+                owner, _, pname = str(a[1]).partition(":") if a[0] in ("user", "iter", "item") else ("", "", "")
+                ou = ctx.pkg.unit(owner) if owner and ctx.pkg.has_unit(owner) else None
+                b = bindings(ctx, ou, pname.rstrip("[]")) if ou is not None and _is_internal(ou) and ou.cls is None else None
+                if b:
+                    for bv in b:
+                        through |= set(bv)
+                else:
+                    through.add(a)
+            v = frozenset(through)
+            if not any(a[0] in ("user", "iter", "item") for a in v):
+                continue
+            ctx.count("aclose_lookups")
+            why = _aclose_guard(ctx, u, cfg, n, recv, v, find_path, abstract_values)
+            ctx.check(bool(why), "R03.5", u, n.ast,
+                      f"`{norm(n.ast)}`: {why}" if why else
+                      f"`{norm(n.ast)}` is looked up on a user-supplied iterator that need not have it: a class-based async "
+                      "iterator without aclose raises AttributeError where a generator works", node=n)
+
+
+def _aclose_guard(ctx, u, cfg, n, recv, v, find_path, abstract_values) -> str:
+    # g1: the lookup is protected by an AttributeError handler
+    for (k, a) in n.regions:
+        if k == "try_body" and any(h.type is not None and "AttributeError" in norm(h.type) for h in a.handlers):
+            return "absence is handled (AttributeError handler)"
+    # g2: every path to the lookup passes the true edge of isinstance(x, ACloseable..) / hasattr(x, "aclose")
+    rtext = norm(recv)
+
+    def establishes(b) -> bool:
+        e = b.ast
+        if not isinstance(e, ast.Call) or len(e.args) != 2:
+            return False
+        f = norm(e.func)
+        if f == "isinstance":
+            kinds = e.args[1].elts if isinstance(e.args[1], ast.Tuple) else [e.args[1]]
+            return all(norm(k).split(".")[-1] in ("ACloseable", "AsyncGenerator", "AClose") for k in kinds) and _same(e.args[0], rtext, u, cfg, b)
+        if f == "hasattr":
+            return isinstance(e.args[1], ast.Constant) and e.args[1].value == "aclose" and _same(e.args[0], rtext, u, cfg, b)
+        return False
+
+    tests = {b for b in cfg.nodes if b.kind == "branch" and establishes(b)}
+    if tests:
+        path = find_path(cfg.entry, lambda x: x is n, edge_ok=lambda a, lab, b: lab not in ("e", "p") and not (a in tests and lab == "t"))
+        if path is None:
+            return "guarded by an isinstance/hasattr test on every path"
+    # g3: the declared type of the parameter / field guarantees aclose
+    for a in v:
+        if a[0] in ("user", "iter", "item") and ":" in str(a[1]):
+            owner, _, pname = a[1].partition(":")
+            pname = pname.rstrip("[]")
+            ou = ctx.pkg.unit(owner) if ctx.pkg.has_unit(owner) else None
+            ann = next((p.annotation for p in ou.params() if p.arg == pname), None) if ou is not None else None
+            text = norm(ann) if ann is not None else ""
+            if any(k in text for k in ("AClose", "ACloseable", "AsyncGenerator")) and "AsyncIterator" not in text.replace("AsyncGenerator", ""):
+                return f"declared type `{text}` has aclose"
+    # g4: an element of a field collection whose filter keeps only closeable objects
+    loops = [a for (k, a) in n.regions if k == "loop" and isinstance(a, ast.For)]
+    for loop in loops:
+        if isinstance(recv, ast.Name) and isinstance(loop.target, ast.Name) and loop.target.id == recv.id \
+                and isinstance(loop.iter, ast.Attribute) and norm(loop.iter.value) == "self" and u.cls is not None:
+            init = u.cls.methods.get("__init__")
+            for st in (own_nodes(init.node) if init is not None else []):
+                tg = st.targets[0] if isinstance(st, ast.Assign) else st.target if isinstance(st, ast.AnnAssign) else None
+                if isinstance(tg, ast.Attribute) and tg.attr == loop.iter.attr and st.value is not None:
+                    comps = [c for c in ast.walk(st.value) if isinstance(c, (ast.GeneratorExp, ast.ListComp))]
+                    conds = [c for comp in comps for g in comp.generators for c in g.ifs]
+                    if conds and all(abstract_values(ctx, init, _NoAcloseOps(), c, {}) == {False} for c in conds):
+                        return f"elements of self.{tg.attr} are filtered to objects that have aclose"
+                    if _built_from_guarded_appends(ctx, init, st, find_path):
+                        return f"elements of self.{tg.attr} are appended only after an isinstance/hasattr test for aclose"
+    # g5: a field of a class that is only constructed under a hasattr(x, "aclose") guard
+    if isinstance(recv, ast.Attribute) and norm(recv.value) == "self" and u.cls is not None:
+        sites = 0
+        guarded = 0
+        for w in real_units(ctx):
+            for c in own_nodes(w.node):
+                if isinstance(c, ast.Call) and ctx.pkg.resolve_expr_global(w.module, c.func).node is u.cls.node:
+                    sites += 1
+                    wcfg = cfg_of(w)
+                    cn = next((x for x in wcfg.nodes if x.kind == "call" and x.ast is c and not x.tag), None)
+                    tests2 = {b for b in wcfg.nodes if b.kind == "branch" and isinstance(b.ast, ast.Call) and norm(b.ast.func) == "hasattr"
+                              and len(b.ast.args) == 2 and isinstance(b.ast.args[1], ast.Constant) and b.ast.args[1].value == "aclose"}
+                    if cn is not None and tests2 and find_path(
+                            wcfg.entry, lambda x: x is cn, edge_ok=lambda a, lab, b: lab not in ("e", "p") and not (a in tests2 and lab == "t")) is None:
+                        guarded += 1
+        if sites and sites == guarded:
+            return f"{u.cls.name} is only constructed for objects that have aclose (hasattr guard at every construction site)"
+    return ""
+
+
+def _built_from_guarded_appends(ctx, init, st, find_path) -> bool:
+    """``self.f = tuple(L)`` / ``list(L)`` / ``L`` where L is a local list that only receives
+    objects under the true edge of a test that they have aclose."""
+    val = st.value
+    if isinstance(val, ast.Call) and norm(val.func) in ("tuple", "list") and len(val.args) == 1:
+        val = val.args[0]
+    if not isinstance(val, ast.Name):
+        return False
+    cfg = cfg_of(init)
+    adds = [n for n in cfg.nodes if n.kind == "call" and not n.tag and isinstance(n.ast.func, ast.Attribute)
+            and isinstance(n.ast.func.value, ast.Name) and n.ast.func.value.id == val.id
+            and n.ast.func.attr in ("append", "add", "appendleft", "insert", "extend")]
+    if not adds:
+        return False
+    for a_ in adds:
+        if a_.ast.func.attr not in ("append", "add", "appendleft") or len(a_.ast.args) != 1:
+            return False
+        x = norm(a_.ast.args[0] if not (isinstance(a_.ast.args[0], ast.Call) and norm(a_.ast.args[0].func) in ("cast", "typing.cast"))
+                 else a_.ast.args[0].args[1])
+
+        def establishes(b, x=x) -> bool:
+            e = b.ast
+            if not isinstance(e, ast.Call) or len(e.args) != 2 or norm(e.args[0]) != x:
+                return False
+            if norm(e.func) == "isinstance":
+                kinds = e.args[1].elts if isinstance(e.args[1], ast.Tuple) else [e.args[1]]
+                return all(norm(k).split(".")[-1] in ("ACloseable", "AsyncGenerator", "AClose") for k in kinds)
+            return norm(e.func) == "hasattr" and isinstance(e.args[1], ast.Constant) and e.args[1].value == "aclose"
+
+        tests = {b for b in cfg.nodes if b.kind == "branch" and establishes(b)}
+        if not tests or find_path(cfg.entry, lambda y, a_=a_: y is a_,
+                                  edge_ok=lambda p_, lab, q: lab not in ("e", "p") and not (p_ in tests and lab == "t")) is not None:
+            return False
+    return True
+
+
+def _same(e, rtext: str, u, cfg, at) -> bool:
+    """``e`` denotes the same object as the receiver text (directly or through a local alias)."""
+    if norm(e) == rtext:
+        return True
+    if isinstance(e, ast.NamedExpr):
+        return norm(e.target) == rtext or norm(e.value) == rtext
+    return False
